@@ -38,6 +38,9 @@ CONFIGS = [
     {'cas': [('0', 0x30), ('C', 0x81)], 'lst': 'U'},
     {'cas': [('W', 0x85)], 'lst': 'UIP'},
     {'cas': [('N', 0x10), ('W', 0x85)], 'lst': 'UIP'},
+    {'cas': [('N', 0x10)], 'lst': 'UIP', 'int': 0x00},         # integer listener bound to address 0
+    {'cas': [('N', 0x10), ('N', 0x20)], 'lst': 'I', 'int': 0x00},
+    {'cas': [('N', 0x10)], 'lst': 'IP', 'int': 0xFE},
 ]
 
 
@@ -62,8 +65,9 @@ class Cfg:
         if 'U' in cfg['lst']:
             st.ecu.subscribe(self.rec.cb('U'))
             self.listeners.append(('U', 'U', None))
+        self.int_addr = cfg.get('int', INT_ADDR)
         if 'I' in cfg['lst']:
-            st.ecu.subscribe(self.rec.cb('I'), INT_ADDR)
+            st.ecu.subscribe(self.rec.cb('I'), self.int_addr)
             self.listeners.append(('I', 'I', None))
         if 'P' in cfg['lst']:
             st.ecu.subscribe(self.rec.cb('P'), pred)
@@ -89,7 +93,7 @@ class Cfg:
 
     def owned(self, da):
         return any(ca.state == NORMAL and ca.device_address == da for ca in self.cas) or \
-            ('I' in self.cfg['lst'] and da == INT_ADDR)
+            ('I' in self.cfg['lst'] and da == self.int_addr)
 
     def idle_state(self):
         return containers(self.st.ecu.j1939_dll)
@@ -165,7 +169,7 @@ def eval_frame(c, name, pf, da, sa, data, cls, acc, sc, flags=None):
             elif kind == 'U':
                 bound = True
             elif kind == 'I':
-                bound = da == INT_ADDR
+                bound = da == c.int_addr
             else:
                 bound = pred(da)
             if not bound and n:
